@@ -44,7 +44,7 @@ func snapshot(r *Runner) (string, error) {
 }
 
 func runnerAt(goit, base string, T *Tables, tz int) *Runner {
-	r := &Runner{Goit: goit, Base: base, Root: filepath.Join(base, "root"), Home: filepath.Join(base, "home"), T: T, Timeout: 10e9, TZ: tz}
+	r := &Runner{Goit: goit, Base: base, Root: filepath.Join(base, "root"), Home: filepath.Join(base, "home"), T: T, Timeout: 30e9, TZ: tz}
 	return r
 }
 
